@@ -38,6 +38,8 @@ type NetSpec struct {
 	// Dormant (networks expressed from a genome only): the genome also carries a disabled module and a disabled connection
 	// gene; neither is expressed, the network is the plain one
 	Dormant bool `json:"dormant_module_and_gene,omitempty"`
+	// SensorCtor (constructor-built networks only): input and bias nodes are made with NewSensorNode instead of NewNNode
+	SensorCtor bool `json:"sensors_from_sensor_constructor,omitempty"`
 }
 
 // outputIds: ids of the output neurons in the order of the network's output list (the order of ReadOutputs).
@@ -126,6 +128,9 @@ func (s NetSpec) Build() (*network.Network, error) {
 	var all, in, out []*network.NNode
 	for _, ns := range s.Nodes {
 		n := network.NewNNode(ns.Id, network.NodeNeuronType(ns.Role))
+		if s.SensorCtor && isSensorRole(ns.Role) {
+			n = network.NewSensorNode(ns.Id, ns.Role == roleBias)
+		}
 		n.ActivationType = neatmath.NodeActivationType(ns.Act)
 		byId[ns.Id] = n
 		all = append(all, n)
@@ -237,6 +242,9 @@ func drawNet(t *rapid.T, cfg NetCfg) NetSpec {
 	s := drawNetPlain(t, cfg)
 	if s.ViaGenome && rapid.IntRange(0, 5).Draw(t, "dormant module") == 0 {
 		s.Dormant = true
+	}
+	if !s.ViaGenome && rapid.IntRange(0, 3).Draw(t, "sensor constructor") == 0 {
+		s.SensorCtor = true
 	}
 	if cfg.Rename && rapid.IntRange(0, 4).Draw(t, "rename nodes") == 0 {
 		s = renameNet(t, s)
@@ -460,6 +468,43 @@ func drawNetPlain(t *rapid.T, cfg NetCfg) NetSpec {
 		s.Links = append(s.Links, NetLink{From: s.Nodes[0].Id, To: order[0].Id, W: 1})
 	}
 	return s
+}
+
+// BuildSolverDirect creates a fast solver through its public constructor instead of deriving it from a network: neurons are
+// indexed bias, inputs, outputs, hidden; every link - also those leaving a bias neuron - is an ordinary connection and the
+// bias list is empty (the form a model file or a caller of the constructor may use).
+func (s NetSpec) BuildSolverDirect() *network.FastModularNetworkSolver {
+	index := map[int]int{}
+	var acts []neatmath.NodeActivationType
+	add := func(n NetNode) {
+		index[n.Id] = len(acts)
+		acts = append(acts, neatmath.NodeActivationType(n.Act))
+	}
+	nIn, nBias, _, nOut := s.counts()
+	for _, role := range []int{roleBias, roleInput} {
+		for _, n := range s.Nodes {
+			if n.Role == role {
+				add(n)
+			}
+		}
+	}
+	byId := map[int]NetNode{}
+	for _, n := range s.Nodes {
+		byId[n.Id] = n
+	}
+	for _, id := range s.outputIds() {
+		add(byId[id])
+	}
+	for _, n := range s.Nodes {
+		if n.Role == roleHidden {
+			add(n)
+		}
+	}
+	var conns []*network.FastNetworkLink
+	for _, l := range s.Links {
+		conns = append(conns, &network.FastNetworkLink{SourceIndex: index[l.From], TargetIndex: index[l.To], Weight: l.W})
+	}
+	return network.NewFastModularNetworkSolver(nBias, nIn, nOut, len(acts), acts, conns, make([]float64, len(acts)), nil)
 }
 
 /* ---- reference models over a NetSpec ---- */
